@@ -17,6 +17,7 @@ import sympy as sp
 
 from .common import *  # noqa
 from .grlib import is_rowwise_norm, pbc_args, REMOVE_PBC
+from ..vg import strip_alloc
 
 MOD = "utils.coarse_graining"
 
@@ -218,9 +219,18 @@ def check_grid_meshgrid(run, it, fq, ndim):
             lo, hi, num = a[2][:3]
             okax = tri_lazy(lambda: (True if (okax) else None), lambda: (True if (lo[0] == "sub") else None), lambda: (True if (hi[0] == "sub") else None), lambda: (True if (lo[1] == hi[1]) else None), lambda: eqv(lo[2], ("tuple", (C(c), C(0)))), lambda: eqv(hi[2], ("tuple", (C(c), C(1)))), lambda: eqv(num, ("sub", ng, C(c))))
             bounds_of = lo[1] if lo[0] == "sub" else None
+    wit_ax = "an axis uses bounds/count of another axis"
+    if okax is None:
+        # an axis that starts at a numeric constant instead of the box's lower bound: definite, whatever else the form is
+        lins = [x for x in walk(ax if ax is not None else mg) if x[0] == "call" and x[1] == "numpy.linspace" and len(x[2]) >= 2]
+        consts = [x for x in lins if is_const(x[2][0]) and isinstance(x[2][0][1], (int, float)) and not isinstance(x[2][0][1], bool)]
+        if lins and len(consts) == len(lins):
+            okax = False
+            wit_ax = (f"every axis starts at the constant {consts[0][2][0][1]}: for a box whose lower bound is not {consts[0][2][0][1]} (e.g. bounds [-3, 3]) "
+                      "the grid does not span the box bounds")
     for c in range(ndim):
         run.ob("R-ALG", fq, f"{ndim}D:axis{c}", okax, f"coordinate {c} of a grid point is linspace(bounds[{c},0], bounds[{c},1], ngrids[{c}])", show(ax)[:120] if ax else "?",
-               witness=None if okax else "an axis uses bounds/count of another axis", loc=loc, sound=True)
+               witness=None if okax else wit_ax, loc=loc, sound=True)
     # which frame's bounds, stored for which frame
     tgt = ev.data["target"][2]
     in_loop = [it.loops[l] for l in ev.loops]
@@ -607,10 +617,23 @@ def check_time_average(run, pkg):
             f"w = {sp.sstr(gw)[:120]} (tolerance-guarded floor)", loc=fi.loc())
     # middle index
     mid_ev = [e for e in it.events if e.kind == "call" and e.data["call"][1] == ".append" and set(e.loops) == set(ev.loops)]
-    if len(mid_ev) != 1:
+    mterm = None
+    mloc = fi.loc()
+    if len(mid_ev) == 1:
+        mterm = mid_ev[0].data["call"][2][1]
+        mloc = loc_of(it, mid_ev[0])
+    elif not mid_ev and it.returns and it.returns[0].data["value"][0] == "tuple" and len(it.returns[0].data["value"][1]) == 2:
+        # whole-array form: np.arange(number of windows) + offset  ==  window start + offset for every window
+        second = strip_alloc(it.returns[0].data["value"][1][1])
+        if second[0] == "call" and second[1] in ("numpy.array", "numpy.asarray") and second[2]:
+            second = second[2][0]
+        if second[0] == "bin" and second[1] == "+":
+            for a_, b_ in ((second[2], second[3]), (second[3], second[2])):
+                if a_[0] == "call" and a_[1] == "numpy.arange" and len(a_[2]) == 1 and not any(x == n for x in walk(b_)):
+                    mterm = ("bin", "+", n, b_)
+    if mterm is None:
         run.ob("R-ALG", fq, "middle", None, "middle index appended once per window", f"{len(mid_ev)} appends", loc=fi.loc())
         return
-    mterm = mid_ev[0].data["call"][2][1]
     bad = None
     try:
         for wv in range(1, 9):
@@ -623,9 +646,9 @@ def check_time_average(run, pkg):
             if bad:
                 break
         run.ob("R-ALG", fq, "middle", bad is None, "reported index is the window's central frame for every window length 1..8 and start 0..6",
-               f"middle = {show(mterm)}", witness=bad, loc=loc_of(it, mid_ev[0]), sound=True)   # exact integer evaluation on the enumerated windows
+               f"middle = {show(mterm)}", witness=bad, loc=mloc, sound=True)   # exact integer evaluation on the enumerated windows
     except NotEvaluable as e:
-        run.ob("R-ALG", fq, "middle", None, "reported index is the window's central frame", f"not evaluable: {e}", loc=loc_of(it, mid_ev[0]))
+        run.ob("R-ALG", fq, "middle", None, "reported index is the window's central frame", f"not evaluable: {e}", loc=mloc)
 
 
 def _not_floor_witness(gw, syms):
